@@ -4,12 +4,14 @@
 EXTENDS StatImc, IOUtils
 EnvInt(name, dflt) == IF name \in DOMAIN IOEnv THEN atoi(IOEnv[name]) ELSE dflt
 MCSeeds == LET s0 == EnvInt("C04_SEED0", 1) n == EnvInt("C04_NSEED", 2) IN s0..(s0 + n - 1)
-MCKinds == LET k == EnvInt("C04_KINDS", 123456)
+MCKinds == LET k == EnvInt("C04_KINDS", 1234567)
                RECURSIVE Digits(_)
                Digits(x) == IF x = 0 THEN {} ELSE {x % 10} \cup Digits(x \div 10)
            IN Digits(k)
 \* C04_WIDE = 1 (thorough tier): more --block-length / --first-frame values (0 and 1 both mean frame 1)
 Wide == EnvInt("C04_WIDE", 0) = 1
 MCBlocks == IF Wide THEN {0, 1, 2, 3, 4} ELSE {0, 1, 2, 3}
-MCFirsts == IF Wide THEN {0, 1, 2, 3} ELSE {0, 2}
+\* 9 lies beyond every trajectory (3..4 frames): the error path
+MCFirsts == IF Wide THEN {0, 1, 2, 3, 9} ELSE {0, 2, 9}
+MCAltFirsts == IF Wide THEN {1, 3} ELSE {2}
 =============================================================================
